@@ -21,11 +21,18 @@ Oracles:
                    [last − ramp, last + ramp]
   chp.start_flag   probe: start flag without off->on transition; start bounds untouched by the initial state
   chp.capacity, chp.ramp, chp.heat_share, chp.fuel, chp.start_flag    recomputed from an optimised portfolio
+  chp.start_costs  in a step with an off->on transition (on variables; without them read from the dispatch) the plant's
+                   cash flow holds at least the start costs of THAT step beyond the costs of its other variables, with or
+                   without start variables (from an optimised portfolio; lower bound only, cf. F-06b)
+  chp.profile_ramp statement-level probe (own small family `gen_probe_profile_ramp`, apart from the normal streams): the
+                   dispatch that follows the start profile where it applies (also for a start before the horizon) and then
+                   stays constant must be admitted by the REAL asset problem whatever the ramp
   chp.min_load     below the threshold while on => bool_threshhold = 1 (from an optimised portfolio)
   chp.profile      k-th step after a start / before a shutdown: virtual dispatch within the k-th profile bounds
                    (bounds on the grid from the model), start/shutdown flags exact (from an optimised portfolio)
 Facts `kind` of deviations that are recorded findings of the current tree (decided by known_findings.json, not
-here): 'spurious_start' (F-06b), 'first_step_lower_too_tight' with tar = 0 (F-06c), 'guard_not_in_steps' (F-06d).
+here): 'spurious_start' (F-06b), 'first_step_lower_too_tight' with tar = 0 (F-06c), 'guard_not_in_steps' (F-06d),
+'start_ramp_before_horizon_ramp_binds' (F-06h), 'start_ramp_first_step_ramp_binds' (F-06i).
 Every other kind ('first_step_ramp_up', 'first_step_shutdown_excluded', 'ramp_conv_index', 'ramp_step',
 'start_forced_by_bound', 'pattern_vs_spec', …) is a plain violation (F-06a, F-06e, F-06f are repaired in /repo).
 """
@@ -427,6 +434,150 @@ def gen_focus_start_fuel(rnd, tmax=10):
     off0 = rnd.randint(0, 2 * blk - 1)
     case['prices']['m_el'] = [(400. if ((t + off0) // blk) % 2 == 0 else -50.) + q8(rnd, 0, 4) for t in range(T)]
     case['focus'] = 'start_fuel_only'
+    return case
+
+
+def gen_focus_start_costs_vary(rnd, tmax=10):
+    """stream 'start-costs-vary': portfolio case with a plant / CHP whose start costs VARY IN TIME and are zero in some
+    steps of its window (interval dict covering only part of the window or carrying zero values, price-key series with
+    zeros, numpy array; a small share varies without zeros), mostly with nothing else that calls for start variables
+    (minimum runtime of at most one step, no start fuel), and block prices that make cycling attractive, the start costs
+    ranging from negligible to prohibitive: `oracle_portfolio` then reads the off->on transitions from the on/off pattern
+    (from the dispatch where there are no on variables) and demands the start costs OF THE STEP OF THE START in the plant's
+    cash flow"""
+    for _ in range(400):
+        case = gen_case(rnd, kind='portfolio', tmax=tmax)
+        if len(case['prices'].get('m_el', [])) >= 3:
+            break
+    a = case['args']
+    T = len(case['prices']['m_el'])
+    start = pd.Timestamp(case['grid']['start'])
+    step = pd.Timedelta(seconds=case['step_s'])
+    pts = [start + k * step for k in range(T + 1)]
+    case['mode'] = 'any'
+    if rnd.random() < 0.8 and (not isinstance(a.get('min_cap'), (int, float)) or a['min_cap'] <= 0):
+        a['min_cap'] = q8(rnd, 0.25, 2)
+    if rnd.random() < 0.75:
+        a['min_runtime'] = rnd.choice([0., 0., 1.]) if case['step_s'] >= case['unit_s'] else 0.
+    if rnd.random() < 0.6:
+        a['min_downtime'] = rnd.choice([0., 0., 1.]) if case['step_s'] >= case['unit_s'] else 0.
+    if rnd.random() < 0.7:
+        a.pop('start_fuel', None)
+        case['prices'].pop('k_sf', None)
+    if rnd.random() < 0.7:
+        a.pop('ramp', None)
+        a.pop('last_dispatch', None)
+    # start costs per step: zero in at least one step and non-zero in at least one (mostly)
+    hi = rnd.choice([9, 9, 40, 400, 3000])
+    form = rnd.choice(['dict', 'dict', 'key', 'array'])
+    with_zeros = rnd.random() < 0.88
+    case['prices'].pop('k_sc', None)
+    if form == 'dict':
+        k = rnd.randint(2, min(4, T))
+        cuts = [0] + sorted(rnd.sample(range(1, T), k - 1)) + [T]
+        ivs = [(cuts[i], cuts[i + 1]) for i in range(k)]
+        vals = [q8(rnd, 1, hi) if rnd.random() < 0.6 else 0. for _ in ivs]
+        if with_zeros and all(v != 0 for v in vals):
+            vals[rnd.randrange(k)] = 0.
+        if all(v == 0 for v in vals):
+            vals[rnd.randrange(k)] = q8(rnd, 1, hi)
+        if not with_zeros:
+            vals = [v if v != 0 else q8(rnd, 1, hi) for v in vals]
+        # an interval without start costs is left out (steps not covered default to 0) or given with the value 0
+        keep = [i for i in range(k) if vals[i] != 0 or rnd.random() < 0.4]
+        a['start_costs'] = {'start': [{'$dt': iso(pts[ivs[i][0]])} for i in keep], 'end': [{'$dt': iso(pts[ivs[i][1]])} for i in keep],
+                            'values': [vals[i] for i in keep]}
+    else:
+        vec = [q8(rnd, 1, hi) if rnd.random() < 0.6 else 0. for _ in range(T)]
+        if with_zeros and all(v != 0 for v in vec):
+            vec[rnd.randrange(T)] = 0.
+        if all(v == 0 for v in vec):
+            vec[rnd.randrange(T)] = q8(rnd, 1, hi)
+        if not with_zeros:
+            vec = [v if v != 0 else q8(rnd, 1, hi) for v in vec]
+        if form == 'key':
+            case['prices']['k_sc'] = vec
+            a['start_costs'] = 'k_sc'
+        else:
+            a['start_costs'] = {'$arr': vec}
+    # blocks of attractive / unattractive power prices: the plant is worth starting and stopping inside the horizon
+    blk = rnd.choice([1, 1, 2, 2, 3])
+    off0 = rnd.randint(0, 2 * blk - 1)
+    p_hi, p_lo = rnd.choice([120., 400.]), rnd.choice([-50., -200.])
+    case['prices']['m_el'] = [(p_hi if ((t + off0) // blk) % 2 == 0 else p_lo) + q8(rnd, 0, 4) for t in range(T)]
+    case['focus'] = 'start_costs_vary'
+    return case
+
+
+PROBE_GRIDS = [('h', 'h', 3600, 3600, None), ('h', 'h', 3600, 3600, None), ('d', 'd', 86400, 86400, None), ('h', 'h', 3600, 3600, 'h'),
+               ('15min', 'h', 900, 3600, '15min'), ('h', 'min', 3600, 60, 'h'), ('2h', 'h', 7200, 3600, '2h')]
+
+
+def gen_probe_profile_ramp(rnd, tmax=8):
+    """statement-level PROBE (kept apart from the normal streams): a plant / CHP with a START RAMP PROFILE and a general
+    ramp, either already inside its start ramp at the beginning of the horizon (0 < time_already_running < length of the
+    profile, last_dispatch within the profile bounds of the step before the horizon) or off before the horizon.  The ramp
+    is drawn from 'never binds' to 'smaller than the increments of the profile'.  `oracle_profile_ramp` pins the dispatch
+    that follows the (remaining) profile and then stays constant - admissible under every reading of the statement, since
+    the profile takes precedence over the ramp where it applies - in the REAL asset problem.  Profile given per grid step
+    (ramp_freq = grid freq, or main time unit = grid freq), so that no conversion of the profile is involved."""
+    freq, unit, step_s, unit_s, rf = rnd.choice(PROBE_GRIDS)
+    S = rnd.randint(2, 4)
+    T = rnd.randint(S + 2, max(S + 2, tmax))
+    start = pd.Timestamp('2021-01-01') + rnd.choice([0, 0, 6]) * pd.Timedelta(hours=1)
+    if freq == 'd':
+        start = start.normalize()
+    step = pd.Timedelta(seconds=step_s)
+    pts = [start + k * step for k in range(T + 1)]
+    heat = rnd.random() < 0.3
+    case = {'kind': 'build', 'probe': 'profile_ramp', 'grid': {'start': iso(pts[0]), 'end': iso(pts[-1]), 'freq': freq, 'unit': unit, 'tz': None},
+            'step_s': step_s, 'unit_s': unit_s, 'name': 'chp', 'prices': {}, 'exact': dyadic(step_s / unit_s), 'window': [0, T],
+            'cls': 'CHPAsset' if heat else 'Plant', 'nodes': ['el'] + (['heat'] if heat else []), 'mode': 'any'}
+    lo, v_ = [], 0.
+    for _ in range(S):
+        v_ += q8(rnd, 0.5, 3)
+        lo.append(v_)
+    width = rnd.choice([0., 0., 0.25, 1.])
+    up = [x + width for x in lo]
+    a = {'start_ramp_lower_bounds': lo}
+    if width > 0 or rnd.random() < 0.5:
+        a['start_ramp_upper_bounds'] = up
+    if rf is not None:
+        a['ramp_freq'] = rf
+    if rnd.random() < 0.3:
+        q_lo = sorted((q8(rnd, 0.25, lo[-1]) for _ in range(rnd.randint(1, 2))), reverse=True)
+        a['shutdown_ramp_lower_bounds'] = q_lo
+        case['profiles'] = 'both'
+    else:
+        case['profiles'] = 'start'
+    # after the ramp the plant stays at the last profile value: capacities around it
+    a['min_cap'] = max(0.125, lo[-1] - q8(rnd, 0, 2))
+    a['max_cap'] = up[-1] + q8(rnd, 0, 4)
+    a['ramp'] = rnd.choice([q8(rnd, 0.125, 1), q8(rnd, 0.125, 3), q8(rnd, 3, 16), 64.])
+    pick = rnd.choice(['lo', 'up'])
+    case['pick'] = pick
+    per = step_s / unit_s
+    if rnd.random() < 0.5:
+        k = rnd.randint(1, S - 1)
+        a['time_already_running'] = k * per
+        a['last_dispatch'] = (lo if pick == 'lo' else up)[k - 1]
+        case['state'] = 'running'
+    else:
+        if rnd.random() < 0.4:
+            a['time_already_off'] = rnd.choice([1, 2, 5]) * per
+        case['state'] = 'off' if 'time_already_off' in a else 'neither'
+    if rnd.random() < 0.3:
+        a['min_runtime'] = rnd.choice([1, 2]) * per
+    if rnd.random() < 0.3:
+        a['start_costs'] = q8(rnd, 0, 9)
+    if rnd.random() < 0.5:
+        a['price'] = 'p_el'
+        case['prices']['p_el'] = [q8(rnd, -20, 60) for _ in range(T)]
+    if heat:
+        a['conversion_factor_power_heat'] = rnd.choice([1., 0.5, 2.])
+        if rnd.random() < 0.5:
+            a['max_share_heat'] = rnd.choice([0.5, 1., 2.])
+    case['args'] = a
     return case
 
 
@@ -873,6 +1024,79 @@ def oracle_spurious_start(case, ir, info):
     return viol, {'spurious': False}
 
 
+def oracle_profile_ramp(case, ir, info):
+    """statement-level probe (cases of `gen_probe_profile_ramp` only): "it changes by at most the ramp between consecutive
+    steps including the first step relative to the last dispatch (start/shutdown ramp profiles taking precedence where
+    given)".  The witness dispatch follows the start profile where it applies - from position `tar` for a plant already
+    inside its start ramp (a start before the horizon), from position 0 for a start in the first step (and, as a control,
+    for a start in the second step after an off step) - and then stays constant at the last profile value, which lies
+    between min and max capacity: it respects capacity, profile bounds, the ramp outside the start ramp, runtime and
+    downtime, so it is admissible under the statement whatever the ramp.  It is pinned on the dispatch variables of the REAL
+    asset problem (binaries free, heat 0) and HiGHS decides feasibility.  Facts: `kind`
+      'start_ramp_before_horizon_ramp_binds'  rejected, plant inside its start ramp at the beginning, and the witness
+                                              exceeds the ramp only in steps of that start ramp (F-06h)
+      'start_ramp_first_step_ramp_binds'      rejected, start in the first step, and the witness exceeds the ramp in the
+                                              first step relative to the last dispatch (F-06i)
+      'start_profile_later_step_rejected' / 'profile_witness_rejected'   anything else that is rejected"""
+    op, asset = ir['op'], ir['asset']
+    P = params_on_grid(case, asset)
+    T, S, tar = P['T'], info['S'], info['tar']
+    if P['ramp'] is None or S == 0 or tar >= S or T < S + 2:
+        return [], {'profile_ramp': 'not applicable'}
+    sl, su = ([float(Fraction(v)) for v in info[k]] for k in ('sl', 'su'))
+    val = sl if case.get('pick', 'lo') == 'lo' else su
+    ramp, last = P['ramp'], P['last']
+
+    def witness(shift):
+        w = [0.] * shift + val[tar:]
+        return np.asarray((w + [val[-1]] * T)[:T])
+
+    def admitted(w):
+        lb, ub = op.l.copy(), op.u.copy()
+        lb[0:T] = w
+        ub[0:T] = w
+        if info['heat']:
+            lb[info['heat_idx']:info['heat_idx'] + T] = 0.
+            ub[info['heat_idx']:info['heat_idx'] + T] = 0.
+        return highs(op, lb=lb, ub=ub)[0]
+    tol = 1e-9 * max(1., val[-1])
+    w = witness(0)
+    n_ramp = S - tar                        # steps 0 .. n_ramp - 1 belong to the start ramp
+    binding = []
+    if w[0] - last > ramp + tol:
+        binding.append('first_step')
+    binding += ['step_%d' % t for t in range(1, n_ramp) if w[t] - w[t - 1] > ramp + tol]
+    facts = dict(tar=tar, S=S, T=T, ramp=ramp, last=last, state=case.get('state'), cls=case['cls'], binding=binding,
+                 witness=[float(x) for x in w], probe=True)
+    st = admitted(w)
+    obs = {'profile_ramp': st, 'profile_ramp_binding': len(binding)}
+    viol = []
+    if st == 'infeasible':
+        if tar > 0 and binding:
+            kind = 'start_ramp_before_horizon_ramp_binds'
+            why = 'the plant is in step %d of its start ramp at the beginning (start before the horizon)' % tar
+        elif tar == 0 and 'first_step' in binding:
+            # (the rows of the later steps of a start inside the horizon are relaxed by the start variables: the control below)
+            kind = 'start_ramp_first_step_ramp_binds'
+            why = 'start in the first step'
+        else:
+            kind = 'profile_witness_rejected'
+            why = 'start in the first step' if tar == 0 else 'start before the horizon'
+        viol.append(V('chp.profile_ramp', '%s: dispatch %s follows the start profile %s and then stays at %.6g within [min_cap %.6g, max_cap %.6g], but the real asset problem rejects it (ramp %.6g, last_dispatch %.6g; the witness exceeds the ramp in %s, all inside the start ramp)' % (
+            why, [float(x) for x in w], val, val[-1], P['min_cap'][0], P['max_cap'][0], ramp, last, binding or 'no step'), kind=kind, **facts))
+    elif st != 'optimal':
+        obs['profile_ramp'] = st
+    if tar == 0 and last == 0 and info['D'] <= 1:
+        # control: off in the first step, start in the second: the code relaxes the ramp rows by the start variables
+        w1 = witness(1)
+        st1 = admitted(w1)
+        obs['profile_ramp_later'] = st1
+        if st1 == 'infeasible':
+            viol.append(V('chp.profile_ramp', 'start in the second step: dispatch %s follows the start profile %s and then stays constant, but the real asset problem rejects it (ramp %.6g)' % (
+                [float(x) for x in w1], val, ramp), kind='start_profile_later_step_rejected', **dict(facts, witness=[float(x) for x in w1])))
+    return viol, obs
+
+
 # ------------------------------------------------------------------------------------------- (b) optimised portfolio
 def oracle_portfolio(case, info=None):
     """optimise plant + markets with the real code and recompute capacity, ramp, heat share, fuel and start
@@ -1041,6 +1265,37 @@ def oracle_portfolio(case, info=None):
                 viol.append(V('chp.start_flag', 'step %d: start flag %d but on goes %d -> %d (start costs %.6g, start fuel %.6g)' % (
                     t, start_r[t], prev, on_r[t], P['start_costs'][t], P['start_fuel'][t]), kind=kind, free=not paid, probe=False, **facts))
                 break
+    # start costs charged: the plant's cash flow of a step in which it goes from off to on carries the start costs OF THAT
+    # STEP, whether or not the problem has start (or on) variables.  The on/off pattern is read from the on variables, without
+    # them from the dispatch (output > 0 => on; output below a positive min_cap => off); the start costs charged in a step
+    # are what the plant's cash flow (output of the real code) holds beyond the costs of its other variables (dispatch, on,
+    # shutdown, minimum-load flags).  Lower bound only: a start flagged and charged WITHOUT a transition is the recorded
+    # finding F-06b (start >= transition) and not judged here.
+    n_tr = 0
+    if np.any(P['start_costs'] != 0) and len(mm):
+        cash = out['DCF'][case['name']].values.astype(float)[I]
+        mu = mm[~mm.index.duplicated(keep='first')]
+        other = np.zeros(T)
+        for idx, r in zip(mu.index, mu.to_dict('records')):
+            if r['var_name'] != 'bool_start':
+                other[int(np.where(I == r['time_step'])[0][0])] += op.c[idx] * x[idx]
+        charged = -cash - other
+        if has_on:
+            is_on, is_off = on_r == 1, on_r == 0
+        else:
+            is_on, is_off = v > tol, v < P['min_cap'] - tol
+        for t in range(T):
+            was_off = (tar == 0) if t == 0 else bool(is_off[t - 1])
+            if not (is_on[t] and was_off):
+                continue
+            sc_t = float(P['start_costs'][t])
+            if sc_t != 0:
+                n_tr += 1
+            if charged[t] < sc_t - 1e-6 * max(1., abs(sc_t)):
+                viol.append(V('chp.start_costs', 'step %d: the plant goes from off to on (%s; virtual dispatch %.6g -> %.6g), start costs of the step %.6g, but its cash flow %.6g holds only %.6g beyond the costs of dispatch / running (start variables %s; optimal value %.6g)' % (
+                    t, 'on variables' if has_on else 'read from the dispatch, min_cap %.6g' % P['min_cap'][t - 1 if t else 0], P['last'] if t == 0 else v[t - 1], v[t], sc_t, cash[t], charged[t],
+                    'present' if has_start else 'ABSENT', float(res.value)), kind='start_costs_not_charged', step=t, start_costs=sc_t, charged=float(charged[t]), **facts))
+                break
     # minimum-load costs: below the threshold while on => the boolean is 1 (and its cost is charged)
     if case['cls'] == 'CHPAsset_with_min_load_costs':
         bthr, has_thr = series('bool_threshhold', None)
@@ -1074,6 +1329,8 @@ def oracle_portfolio(case, info=None):
     obs.update(extra_obs)
     if prof:
         obs['profile_steps'] = nprof
+    if np.any(P['start_costs'] != 0):
+        obs['paid_transitions'] = n_tr       # off->on transitions in steps with non-zero start costs (oracle chp.start_costs)
     return viol, obs
 
 
@@ -1138,7 +1395,13 @@ def run_case(case, drv, pattern_tmax=7):
         if 'ramp_freq' in a:
             f.append('ramp_freq')
     if prof:
-        pass        # the first-step and spurious-start probes assume the profile-free rows
+        # the first-step and spurious-start probes assume the profile-free rows
+        if case.get('probe') == 'profile_ramp':
+            v, obs = oracle_profile_ramp(case, ir, info)
+            r['violations'] += v
+            r['observed'].update(obs)
+            f.append('probe:profile_ramp')
+            f.append('probe-ramp-binds' if obs.get('profile_ramp_binding') else 'probe-ramp-free')
     elif info['inc_on'] and ('min_take' not in a and 'max_take' not in a):
         v, obs = oracle_first_ramp(case, ir, info)
         r['violations'] += v
@@ -1257,6 +1520,7 @@ THEOREMS_C08 = [
     (_P8, 'EAO.C08CHP.minload_chp_on_contract_empty_window', 'chain Contract -> CHP -> min-load, empty window'),
 ]
 PARTIAL = ['with start/shutdown ramp profiles the on/off-pattern theorem (commit_rows_iff_spec for the rows WITH shutdown variables and the minimum runtime increased by the ramp times), the reading of the HEAT profile rows, the relaxed ramp rows with several flags at once and properties of _convert_ramp (interpolation / averaging) are modelled and covered by the exact row correspondence but have no theorem; '
+           'the precedence of a start ramp profile over the general ramp holds in the generated rows (and in the model, which follows them) only for the steps t >= 1 of a start INSIDE the horizon: the first-step row relative to the last dispatch is never relaxed (known finding F-06i) and the rows of a start ramp begun before the horizon are not relaxed either (known finding F-06h: the relaxing branch is unreachable); the statement-level probe chp.profile_ramp reproduces both on the real code; '
            'the statement "start flagged exactly at off-to-on transitions" holds without shutdown variables only as start >= transition (known finding F-06b: spurious starts are feasible), with shutdown variables exactly for all steps but the last (last_step_flags_not_exclusive)']
 MODELLED = ['CHPAsset / Plant with and without start/shutdown ramp profiles incl. heat variants and _convert_ramp; CHPAsset_with_min_load_costs; costs_only of all three; empty windows']
 
